@@ -574,6 +574,16 @@ func (in *Interp) newHint(act *activation, b *ssa.BasicBlock, site token.Pos, ar
 
 // ---------------------------------------------------------------- builtins
 
+// constLenIs: the cell is a make([]T, n) with the constant n given (every element written at a constant index)
+func constLenIs(c *Cell, n int) bool {
+	c = c.find()
+	if c.LenVal == nil || c.LenVal.K == nil {
+		return false
+	}
+	k, exact := constant.Int64Val(c.LenVal.K)
+	return exact && int(k) == n && n > 0
+}
+
 func (in *Interp) seqOf(v *Val) ([]*Val, bool) {
 	if v == nil {
 		return nil, false
@@ -587,7 +597,7 @@ func (in *Interp) seqOf(v *Val) ([]*Val, bool) {
 	if p, ok := v.Definite(); ok && v.Cell == nil {
 		return []*Val{{Dir: []string{p}, SeqOK: true}}, true
 	}
-	if v.Cell != nil && len(v.Dir) == 0 && v.CSel == "" && v.Cell.Content != nil && v.Cell.Name != "makeslice" {
+	if v.Cell != nil && len(v.Dir) == 0 && v.CSel == "" && v.Cell.Content != nil && (v.Cell.Name != "makeslice" || constLenIs(v.Cell, len(v.Cell.Content.Kids))) {
 		var out []*Val
 		for i := 0; ; i++ {
 			k, ok := v.Cell.Content.Kids[fmt.Sprintf("[%d]", i)]
